@@ -71,7 +71,7 @@ func genC03(tier string, seed uint64, emit func(string)) {
 	r := &rng{s: seed}
 	n := 60
 	if tier == "thorough" {
-		n = 3000
+		n = 800
 	}
 	for kind := 1; kind <= 2; kind++ {
 		for i := 0; i < n; i++ {
@@ -87,6 +87,16 @@ func genC03(tier string, seed uint64, emit func(string)) {
 			k1, k2 := 1+r.intn(5), 1+r.intn(5)
 			emit("EV 1 " + c.String() + " set:0 vsign:g" + strconv.Itoa(k1) + " dec:t0 ver:" + strconv.Itoa(k1) +
 				" vsign:g" + strconv.Itoa(k2) + " ver:" + strconv.Itoa(k2) + " dec:t1 ver:" + strconv.Itoa(k2) + " ver:" + strconv.Itoa(k1) + " dec:t0 ver:" + strconv.Itoa(k1))
+		}
+		// the claims change between two signings -- through the attached object (in place), by a new SetClaims, or by
+		// decoding another token into the same Evidence: every token must carry the claims attached when it was signed
+		for i := 0; i < n/2; i++ {
+			c1, c2 := validClaims(kind, r), validClaims(kind, r)
+			k1, k2 := strconv.Itoa(1+r.intn(5)), strconv.Itoa(1+r.intn(5))
+			sg := []string{"vsign", "sign"}[r.intn(2)]
+			change := []string{"mut:1", "set:1", "mut:1 mut:0 mut:1"}[r.intn(3)]
+			emit("EV 2 " + c1.String() + " " + c2.String() + " set:0 vsign:g" + k1 + " " + change + " " + sg + ":g" + k2 +
+				" dec:t1 ver:" + k2 + " dec:t0 ver:" + k1 + " " + sg + ":g" + k2 + " dec:t2 ver:" + k2)
 		}
 		// a few invalid ones: must fail
 		alt := claimAlternatives(kind, r)
